@@ -113,6 +113,7 @@ func runC01(c *kit.Ctx) {
 		}
 		// R3 lock-step
 		c01LockStep(c, wl, r3)
+		c01Bystander(c, wl, r3)
 		// R4
 		o := r4.Ob(w.F, wl.anchor, w.Table+": key compared normalised", "with an empty incoming key the key is normalised before it is compared with stored keys")
 		if rawCmp != "" {
@@ -144,6 +145,71 @@ func runC01(c *kit.Ctx) {
 			o.Violation("in-batch de-duplication normalises to %q, writers to %q", col.normConst, a)
 		default:
 			o.OK("constant %q (migration %q)", a, mig)
+		}
+	}
+}
+
+// c01Bystander: a batch is merged point by point.  The writer is evaluated for a
+// batch of two points — the point of the valuation and a bystander: a valid point
+// of another identity that matches no stored row — in both orders.  Whatever
+// happens to the first (written to a new row, written over its stored row,
+// ignored as stale, dropped as a node-type point), the bystander is written exactly
+// once, to a new row, bound to its own fields.  This is what keeps parallel lists
+// (points and their row ids) in step across iterations.
+func c01Bystander(c *kit.Ctx, wl *writerLoop, r3 *kit.Rule) {
+	w := wl.w
+	vals := []mergeVal{
+		{rows: 0},
+		{rows: 1, eqType: true, eqKey: true, order: "lt"},
+		{rows: 1, eqType: true, eqKey: true, order: "eq"},
+		{rows: 1, eqType: true, eqKey: true, order: "gt"},
+		{rows: 1, eqType: true, eqKey: false, order: "lt"},
+		{rows: 0, kempty: true},
+	}
+	if w.Table == "edge_points" {
+		vals = append(vals, mergeVal{rows: 0, isnt: true})
+	}
+	for _, order := range []int{1, 2} {
+		o := r3.Ob(w.F, wl.anchor, w.Table+": second point of a batch, "+map[int]string{1: "after", 2: "before"}[order]+" the other",
+			"a point that matches no stored row is written exactly once, to a new row, with its own fields, whatever happened to the other point of the batch")
+		bad, undec, n := "", "", 0
+		for _, v := range vals {
+			v.second = order
+			out := wl.run(v)
+			c.AddValuations(1)
+			if os.Getenv("SIOT_DEBUG_MERGE") != "" {
+				fmt.Printf("second %s | %s | order=%d | %q unknown=%v\n", w.Table, v.String(), order, out.second, out.unknown)
+			}
+			if len(out.second) == 0 {
+				undec = "no successful path for a two-point batch (" + v.String() + ")"
+				continue
+			}
+			for _, sx := range out.second {
+				parts := strings.SplitN(sx, "|", 4)
+				if len(parts) != 4 {
+					continue
+				}
+				n++
+				switch {
+				case parts[1] != "":
+					bad = "other point: " + v.String() + "; the second point of the batch " + parts[1]
+				case parts[0] == "":
+					bad = "other point: " + v.String() + "; the second point of the batch is not written although the batch succeeds"
+				case parts[0] != "1":
+					bad = "other point: " + v.String() + "; the second point of the batch is written " + parts[0] + " times"
+				}
+			}
+		}
+		switch {
+		case bad != "":
+			o.Violation("%s", bad)
+		case n == 0 || undec != "":
+			if undec == "" {
+				undec = "no successful path for a two-point batch"
+			}
+			o.Undecided("%s", undec)
+		default:
+			o.OK("%d exits of %d valuations", n, len(vals))
 		}
 	}
 }
@@ -1490,12 +1556,63 @@ func c01SQL(c *kit.Ctx, m *storeModel, r6 *kit.Rule) {
 				bad = "column " + col + " is updated from " + got + ", expected " + want
 			}
 		}
-		if bad != "" {
+		// a guard on the upsert: the strict form differs from the merge only for equal
+		// timestamps of different points, which C01 does not quantify over (C03/R9 does)
+		_, gundec := upsertGuardProblem(st, w.Table)
+		switch {
+		case bad != "":
 			oU.Violation("%s", bad)
-		} else {
+		case gundec != "":
+			oU.Undecided("%s", gundec)
+		default:
 			oU.OK("%d columns", len(st.Upsert))
 		}
 	}
+}
+
+// upsertGuardProblem judges a WHERE on ON CONFLICT DO UPDATE.  Which point wins
+// is decided by the merge loop (stored time <= incoming time), and the checksums
+// are folded on that decision; a guard in the statement must not decide
+// differently.  No guard, or the merge's own condition (`<table>.time <= ?n` /
+// `excluded.time >= <table>.time`, n the time placeholder), are fine; the strict
+// comparison skips equal-time rewrites; anything else is not compared.
+func upsertGuardProblem(st kit.SQLStmt, table string) (bad, undec string) {
+	g := st.UpsertWhere
+	if len(g) == 0 {
+		return "", ""
+	}
+	timeArg := ""
+	for i, col := range st.Cols {
+		if col == "time" {
+			timeArg = "?" + strconv.Itoa(i+1)
+		}
+	}
+	isStored := func(t string) bool {
+		t = strings.ToLower(t)
+		return t == table+".time" || t == "time"
+	}
+	isIncoming := func(t string) bool {
+		return strings.EqualFold(t, "excluded.time") || (timeArg != "" && t == timeArg)
+	}
+	// tokens may be split around the dot: join them
+	j := strings.Join(g, "")
+	for _, op := range []string{"<=", ">=", "<", ">"} {
+		if k := strings.Index(j, op); k > 0 {
+			l, r := j[:k], j[k+len(op):]
+			if op == ">=" || op == ">" {
+				l, r = r, l
+				op = map[string]string{">=": "<=", ">": "<"}[op]
+			}
+			if isStored(l) && isIncoming(r) {
+				if op == "<=" {
+					return "", ""
+				}
+				return "the upsert is guarded by `WHERE " + strings.Join(g, " ") + "`, the merge loop writes when the stored time is older OR equal", ""
+			}
+			break
+		}
+	}
+	return "", "the upsert is guarded by `WHERE " + strings.Join(g, " ") + "`, which cannot be compared with the decision of the merge loop"
 }
 
 func sortedCopy(xs []string) []string {
@@ -1536,9 +1653,16 @@ func boundArgsProblem(c *kit.Ctx, m *storeModel, w *pointWriter, pointFields map
 	cols := w.Exec.Stmts[0].Cols
 	binds := map[string]map[string]bool{}
 	nargs := 0
-	for _, v := range []mergeVal{{rows: 0}, {rows: 1, eqType: true, eqKey: true, order: "lt"}, {rows: 0, kempty: true}} {
+	// nowSet: the current time is bound although the incoming point carries a time;
+	// zeroTest: the writer tests the incoming time for zero in a form the evaluation decides
+	nowSet, zeroTest := false, false
+	for _, v := range []mergeVal{{rows: 0}, {rows: 1, eqType: true, eqKey: true, order: "lt"}, {rows: 0, kempty: true}, {rows: 0, tzero: true}} {
 		out := wl.run(v)
 		c.AddValuations(1)
+		zeroTest = zeroTest || out.zeroTest
+		if !v.tzero && out.binds["time"]["NOW.UnixNano"] {
+			nowSet = true
+		}
 		for col, ts := range out.binds {
 			if binds[col] == nil {
 				binds[col] = map[string]bool{}
@@ -1556,6 +1680,12 @@ func boundArgsProblem(c *kit.Ctx, m *storeModel, w *pointWriter, pointFields map
 	}
 	if nargs != len(cols) {
 		return "Exec binds " + strconv.Itoa(nargs) + " arguments for " + strconv.Itoa(len(cols)) + " columns", ""
+	}
+	if nowSet && only == nil {
+		if zeroTest {
+			return "column time is bound to the current time although the incoming point carries a time (its time is not the zero value): the delivered timestamp is replaced, so an old point wins over a newer stored one and is read back with a time nobody sent", ""
+		}
+		undecided = "the current time can be bound to column time on a condition the evaluation cannot relate to the incoming time being unset"
 	}
 	for _, col := range cols {
 		if only != nil && !only[col] {
